@@ -41,6 +41,7 @@ BAN_ASREF = re.compile(r"^<<S as kmer::sealed::KmerStorage>::BaN as std::convert
 BA_ASREF = re.compile(r"^bitvec::array::traits::<impl std::convert::As(Ref|Mut)<bitvec::slice::BitSlice(<[^>]*>)?> for bitvec::array::BitArray<[^>]*>>::as_(ref|mut)$|^<bitvec::array::BitArray<.*> as std::convert::As(Ref|Mut)<bitvec::slice::BitSlice>>::as_(ref|mut)$")
 
 
+STR_PARSE = re.compile(r"^(?:core|std)::str::<impl str>::parse::<(.+)>$")
 CONV_INTO = re.compile(r"^<(.+) as std::convert::Into<(.+)>>::into$")
 CONV_FROM = re.compile(r"^<(.+) as std::convert::From<(.+)>>::from$")
 CONV_IMPL = re.compile(r"^(?:[a-z_]+::)*<impl std::convert::From<(.+)> for (.+)>::from$")
@@ -245,6 +246,10 @@ class Norm:
             r = self._pure_helper(key, args)
             if r is not None:
                 return r
+            m = STR_PARSE.match(key)
+            if m:
+                # `s.parse::<T>()` is documented as, and implemented by, `T::from_str(s)`
+                return ("call", "<%s as std::str::FromStr>::from_str" % m.group(1), args) + tuple(t[3:])
             return ("call", key, args) + tuple(t[3:])
         return t
 
@@ -264,15 +269,24 @@ class Norm:
             if bs and len(bs) == 1:
                 b0 = bs[0]
                 imp = b0.get("impl") or {}
-                if b0["kind"] in ("Fn", "AssocFn") and not b0["vis"].startswith("Public") and not imp.get("trait") and not imp.get("trait_default"):
+                import canon as _canon
+                fz = _canon.frozen_fns()
+                # private helpers, and functions the pinned tree does not have (a new `as_slice()`): no rule names them
+                fresh = bool(fz) and b0["path"] not in fz
+                if b0["kind"] in ("Fn", "AssocFn") and (not b0["vis"].startswith("Public") or fresh) and not imp.get("trait") and not imp.get("trait_default"):
                     import terms
                     try:
                         outs = terms.Analysis(eng, terms.Policy()).run(b0, [("param", i + 1) for i in range(b0.get("arg_count", 0))])
                     except Exception:
                         outs = []
                     live = [o for o in outs if o.end != "panic"]
+                    def readonly(c):
+                        # a call that can only read: no `&mut` among its parameter types (Deref::deref, len(), as_ref() ...)
+                        return not any("&mut" in (x or "") or "&'a mut" in (x or "") for x in (c.callee.get("args") or [])) and \
+                            not re.search(r"&('\w+ )?mut ", " ".join(c.callee.get("sig_args") or []))
                     if len(live) == 1 and live[0].end == "return" and not live[0].guards and not live[0].stores and \
-                            not [c for c in live[0].calls if not getattr(c, "inlined", False) == "model"] and len(outs) == 1:
+                            not [c for c in live[0].calls if not getattr(c, "inlined", False) == "model" and not readonly(c)] and len(outs) == 1 and \
+                            not any("mut " in (l.get("ty") or "") for l in (b0.get("locals") or [])[1:1 + b0.get("arg_count", 0)]):
                         Norm._pure_cache[ck] = (b0.get("arg_count", 0), Norm(env=None).norm(live[0].ret))
         hit = Norm._pure_cache[ck]
         if hit is None or hit[0] != len(args):
@@ -399,6 +413,9 @@ def _lead(d):
     return None
 
 
+SIGNED_SEEN = False   # set by the facts loader when the analysed crate contains signed integer arithmetic
+
+
 def cmp_canon(d, op):
     """Canonical form of `d op 0` over the integers: ops are Eq, Ne, Ge (d >= 0) and Lt (d < 0); strict and non-strict forms
     are folded (d > 0 is d - 1 >= 0, d <= 0 is d - 1 < 0) and the sign is fixed so that the first non-constant monomial has a
@@ -418,6 +435,12 @@ def cmp_canon(d, op):
             d, op = padd(neg, one, -1), "Ge"
         else:
             d = neg
+    if op in ("Eq", "Ne") and not SIGNED_SEEN:
+        # a single unsigned atom against zero: x != 0 is x >= 1 and x == 0 is x < 1 (`if i == 0 { return None }` and
+        # `i.checked_sub(1)?` state the same guard)
+        nz = [(m, c) for m, c in d.items() if c]
+        if len(nz) == 1 and nz[0][0] and len(nz[0][0]) == 1 and nz[0][1] == 1:
+            d, op = padd(d, one, -1), ("Ge" if op == "Ne" else "Lt")
     return (pkey(d), op)
 
 
@@ -500,7 +523,18 @@ def guard_nf(norm, g):
         while isinstance(nt, tuple) and nt[0] == "un" and nt[1] == "Not":
             nt, v = nt[2], not v
         return ("bool", nt, v)
+    if op in ("==", "!=") and isinstance(v, int) and not isinstance(v, bool) and isinstance(nt, tuple) and nt[0] != "discr" and _is_arith(nt):
+        # `match i { 0 => .., _ => .. }` on an integer is the comparison i == 0 / i != 0
+        return ("cmp",) + cmp_canon(padd(poly(nt), {(): v}, -1), "Eq" if op == "==" else "Ne")
+    if op == "notin" and isinstance(v, tuple) and len(v) == 1 and isinstance(v[0], int) and not isinstance(v[0], bool) and \
+            isinstance(nt, tuple) and nt[0] != "discr" and _is_arith(nt):
+        return ("cmp",) + cmp_canon(padd(poly(nt), {(): v[0]}, -1), "Ne")
     return ("sw", nt, op, v)
+
+
+def _is_arith(t):
+    """an integer-valued term (a place, a length, arithmetic on those) - not an enum value"""
+    return isinstance(t, tuple) and t[0] in ("P", "F", "L", "bin", "poly", "loopvar", "BITS", "K")
 
 
 def shown(t):
